@@ -188,15 +188,20 @@ def generate(rng, tier):
         docs.append((pages, info))
     # a cross-reference stream that starts exactly at a power of 256 (the largest offset of the table is its own: the column width of
     # XRefTable::write_stream / byte_len changes there): the title is padded until `startxref` is 255, 256, 257 resp. 65535, 65536, 65537
-    docs += boundary_docs(rng)
+    bdocs = boundary_docs(rng)
+    bset = set(id(d) for d in bdocs)
+    docs += bdocs
     lines = []
     for pages, info in docs:
         f = [b"u", b"\n".join(page_line(p) for p in pages), info_text(info)]
         lines.append(f)
     # the real builder's bytes are needed as the *input* of the validator cases
     res = core.run_parallel(_pdfh(), ["build " + " ".join(hexf(x) for x in f) for f in lines], per_case_timeout=20.0)
-    for (pages, info), f, r in zip(docs, lines, res):
+    for pi, f, r in zip(docs, lines, res):
+        pages, info = pi
         tags = ["pages:%d" % len(pages), "info:%s" % ("none" if info is None else len(info))]
+        if id(pi) in bset:
+            tags.append("startxref-boundary")
         for opt in (b"u", b"c"):
             yield Case("build", [opt] + f[1:], check=check_build(pages, info), model=False, tags=tags + ["cache:" + opt.decode()])
         if r is not None and r[0] == "OK" and r[1]:
